@@ -180,6 +180,17 @@ def run(rep, info, model, tier, seed):
         sc["wfaults"] = [wf]
         sc["_terminates"] = True
         scs.append(sc)
+    # the write of the Close frame itself fails (the application's close() or the echo of a server Close) and the peer then
+    # stays silent: the close timeout must still end the iteration
+    for seq in (["hs", "longsilence", "longsilence"], ["hs", "text", "longsilence", "longsilence"], ["hs", "close", "longsilence", "longsilence"],
+                ["hs", "silence", "longsilence", "longsilence"]):
+        for at in (1, 2, 3):
+            for wf in ("oserr", "exc"):
+                for ct in (10 * 1024, 30 * 1024):
+                    sc = build(seq, {at: APP["close"]} if "close" not in seq else {}, simnet.default_cfg(ping_timeout=None, close_timeout=ct))
+                    sc["wfaults"] = ["ok", wf]
+                    sc["salt"] = at
+                    scs.append(sc)
     # random longer histories
     nlong = 1500 if tier == "quick" else 15000
     for _ in range(nlong):
